@@ -3207,7 +3207,9 @@ class SSHConnection(SSHPacketHandler, asyncio.Protocol):
 
             self.logger.info('  Forwarding TCP connection to %s',
                              (dest_host, dest_port))
-        except OSError as exc:
+        except (OSError, ValueError) as exc:
+            # Name resolution raises ValueError for a host name which
+            # can't be encoded, e.g. one with an embedded null character
             raise ChannelOpenError(OPEN_CONNECT_FAILED, str(exc)) from None
 
         return SSHForwarder(cast(SSHForwarder, peer))
@@ -3232,7 +3234,7 @@ class SSHConnection(SSHPacketHandler, asyncio.Protocol):
                 await self._loop.create_unix_connection(SSHForwarder, dest_path)
 
             self.logger.info('  Forwarding UNIX connection to %s', dest_path)
-        except OSError as exc:
+        except (OSError, ValueError) as exc:
             raise ChannelOpenError(OPEN_CONNECT_FAILED, str(exc)) from None
 
         return SSHForwarder(cast(SSHForwarder, peer))
